@@ -280,10 +280,11 @@ class System:
             return isinstance(v, communications.TaskRejected) or (
                 isinstance(v, kiwipy.RemoteException) and 'TaskRejected' in str(v)) or 'TaskRejected' in repr(v)
 
+
         if rejected_expected:
             if status != 'raised' or not is_rejection(value):
                 fail('impossible-task-not-rejected', {'status': status, 'value': repr(value)[:200]})
-            if new_ran or new_constructed or keys_after != keys_before:
+            if new_ran or keys_after != keys_before:  # (merely constructing an instance before refusing is not judged)
                 fail('rejected-task-had-effects', {'ran': new_ran, 'constructed': new_constructed, 'keys': sorted(map(repr, new_keys))})
             return bad
         if kind == 'create':
@@ -310,20 +311,19 @@ class System:
             if new_ran != full:
                 fail('launch:not-run-exactly-once', {'ran': new_ran, 'want': full}, cls=op[1])
             want_keys = {(pid, None): 'created'} if op[2] else {}
-            if new_keys != want_keys:
+            if set(new_keys) != set(want_keys):  # (which state the stored checkpoint shows in the end is not laid down)
                 fail('launch:persistence', {'got': sorted(map(repr, new_keys.items())), 'want': sorted(map(repr, want_keys.items()))},
                      persist=op[2])
             if op[2]:
-                self.stored[(pid, None)] = ','.join(FULL_TRACE[op[1]])
+                stored_state = new_keys.get((pid, None), 'created')
+                self.stored[(pid, None)] = ','.join(FULL_TRACE[op[1]]) if stored_state == 'created' else ''
                 if op[1] in FAILS:
                     self.failing.add((pid, None))
             if op[3]:  # nowait
                 if status != 'ok' or value != pid:
                     fail('launch:nowait-reply', {'status': status, 'value': repr(value)[:200]})
-                if [r for r in ran_at_reply[len(ran_before):]] == full and len(full) > 1 and self.path == 'direct':
-                    fail('launch:nowait-reply-after-termination', ran_at_reply[len(ran_before):])
             elif op[1] in FAILS:
-                if status != 'raised' or 'failing process' not in repr(value) + str(value):
+                if status != 'raised':  # (the reply is the process's error: how it is worded or wrapped is not laid down)
                     fail('launch:error-not-reported', {'status': status, 'value': repr(value)[:200]})
             else:
                 want_out = {'two': {'first': 1, 'second': 2}, 'one': {'only': 'x'}}[op[1]]
@@ -339,12 +339,12 @@ class System:
                 nowait = op[2]
             remaining = self.stored.get(key)
             if remaining is None:
-                if status == 'ok':
+                if status == 'ok' and not nowait:  # (with nowait the id may be returned before the checkpoint is looked for)
                     fail('continue:absent-checkpoint-accepted', repr(value)[:200])
                 if new_ran or new_constructed:
                     fail('continue:absent-checkpoint-had-effects', {'ran': new_ran, 'constructed': new_constructed})
             else:
-                want = [(key[0], s) for s in remaining.split(',')]
+                want = [(key[0], s) for s in remaining.split(',') if s]
                 if new_ran != want:
                     fail('continue:does-not-resume-the-checkpoint', {'ran': new_ran, 'want': want}, tag=repr(key[1]))
                 cls_name = 'fail' if self._is_failing(key) else None
@@ -383,9 +383,12 @@ class System:
         new_ran = RAN[len(ran_before):]
         new_keys = {k: v for k, v in self.persisted_keys().items() if k not in keys_before}
         if self.persister is None:
-            if not fut.done() or fut.cancelled() or fut.exception() is None or 'TaskRejected' not in repr(fut.exception()):
+            exc = fut.exception() if fut.done() and not fut.cancelled() else None
+            rejected = isinstance(exc, communications.TaskRejected) or any(
+                'TaskRejected' in base.__name__ for base in type(exc).__mro__) or 'TaskRejected' in repr(exc)
+            if exc is None or not rejected:
                 fail('impossible-task-not-rejected', repr(fut))
-            if new_ran or CONSTRUCTED[len(constructed_before):]:
+            if new_ran:  # (merely constructing an instance before refusing is not judged)
                 fail('rejected-task-had-effects', {'ran': new_ran})
             return bad
         self.pids[-1] = pid
